@@ -200,3 +200,62 @@ def reference_parser_handler(idx):
         return o
 
     return h
+
+
+class as_rule:
+    """report a sibling property's obligations under one of this property's rule ids (optionally only the keys `keep` accepts)"""
+
+    def __init__(self, rep, rid, keep=None):
+        self.rep = rep
+        self.rid = rid
+        self.keep = keep
+        self.stats = rep.stats
+
+    def __getattr__(self, n):
+        return getattr(self.rep, n)
+
+    def rule(self, rid, text):
+        return None
+
+    def floor(self, rid, n, what):
+        return None
+
+    def check(self, cond, rid, key, detail="", where=""):
+        if self.keep is not None and not self.keep(key):
+            return True
+        return self.rep.check(cond, self.rid, key, detail, where)
+
+    def ok(self, rid, key, detail="", where=""):
+        if self.keep is not None and not self.keep(key):
+            return True
+        return self.rep.ok(self.rid, key, detail, where)
+
+    def fail(self, rid, key, detail="", where=""):
+        if self.keep is not None and not self.keep(key):
+            return True
+        return self.rep.fail(self.rid, key, detail, where)
+
+
+def identity_compares(fi):
+    """`is` / `is not` between run-time values: identity of str/int/float objects is an interpreter accident (small ints and short strings
+    are shared, 'true' read from a file twice is not).  Allowed operands: the None/True/False literals, self, type(...), UPPER_CASE class
+    constants and default_match() (a bool)."""
+    def fine(x):
+        if isinstance(x, ast.Constant) and (x.value is None or isinstance(x.value, bool) or x.value is Ellipsis):
+            return True
+        if isinstance(x, ast.Name) and x.id in ("self", "cls"):
+            return True
+        if isinstance(x, ast.Call) and call_name(x) in ("type", "default_match"):
+            return True
+        if isinstance(x, ast.Attribute) and x.attr.isupper():
+            return True
+        return False
+
+    out = []
+    for c in walk_no_nested(fi.node):
+        if isinstance(c, ast.Compare):
+            operands = [c.left] + c.comparators
+            for i, op in enumerate(c.ops):
+                if isinstance(op, (ast.Is, ast.IsNot)) and not fine(operands[i]) and not fine(operands[i + 1]):
+                    out.append(c)
+    return out
